@@ -8,7 +8,7 @@ S5.3 evaluation arms: Tuple -> Value::Tuple(all arguments), Chain -> last argume
 S5.4 Tuple binds tighter than Chain; both are sequences with unbounded arity.
 Not decided: tree equality for all mixed `,`/`;` programs (a run-time property of the root_stack algorithm)."""
 import tables
-from absint import Interp, SYM, C, ADT, fmt, is_adt, Budget
+from absint import Interp, SYM, C, ADT, OK, ERR, Fork, fmt, is_adt, Budget
 from rules.treepaths import sequence_branch_paths, opaque_hook, calls_of, branches_of, is_true, seed
 from rules.common import safe_tables
 
@@ -26,6 +26,7 @@ def run(ctx):
     if T is None:
         return
     s51(ctx, prog)
+    s55(ctx, prog)
     s52(ctx, prog, T)
     s53(ctx, prog)
     prec = T['precedence']
@@ -69,6 +70,102 @@ def s51(ctx, prog):
             ctx.ok('S5.1', 'sub-branch:' + label, 'every path (%d) pushes a root_node() placeholder into the sequence that ends on top of root_stack' % len(goods), span=f.span)
     ctx.floor('S5.1', 'separator_sub_branches', len(sub), 4)
     ctx.sample(dict(rule='S5.1', sub_branches={k: all(v) for k, v in sub.items()}))
+
+
+def owned(v):
+    """is the abstract node value one the builder owns exactly once (moved, not copied)?"""
+    if v in (SYM('root'), SYM('node')):
+        return True
+    if v == ('app', 'root_node', ()):
+        return True
+    if v[0] == 'proj':
+        b = v[1]
+        # payload of a pop (`Vec::pop#k(..).as Some.0`) or the Ok payload of a collapse
+        if b[0] == 'app' and ('::pop#' in b[1] or b[1].startswith('collapse_root_stack_to')):
+            return True
+    if v[0] == 'app' and ('::pop#' in v[1]):
+        return True
+    return False
+
+
+def s55(ctx, prog):
+    """element conservation in the separator branch: every node placed into a children vector or onto root_stack is owned
+    (the popped root, the new node, a popped child, a collapse result, a fresh placeholder) - never a copy of a node that
+    stays where it was - and every node taken out (root, node, each popped child) is placed exactly once"""
+    try:
+        f, start, paths = sequence_branch_paths(prog)
+    except (ValueError, Budget) as e:
+        ctx.unrecognised('S5.5', 'sequence-branch', 'shape', str(e))
+        return
+    n = 0
+    bad = False
+    for ret, eff in paths:
+        if not (isinstance(ret, tuple) and ret and ret[0] == 'stop'):
+            continue
+        n += 1
+        label = sub_label(eff)
+        placed = []
+        taken = [SYM('root'), SYM('node')]
+        for nm, a, sp in calls_of(eff):
+            if nm == 'push' and len(a) == 2:
+                placed.append((a[1], sp))
+            if nm.startswith('pop') and a:
+                pass
+        for e in eff:
+            if e[0] == '<branch>':
+                v, t = e[2]
+                # a pop whose Some edge was taken yields an element that must be placed again
+                if v[0] == 'app' and v[1] == 'discriminant' and v[2][0][0] == 'app' and '::pop#' in v[2][0][1] and t == C(1):
+                    taken.append(('proj', v[2][0], ('as Some', '0')))
+        for v, sp in placed:
+            if not owned(v):
+                bad = True
+                ctx.violation('S5.5', 'sub-branch:' + label, 'copied-element', 'a node is placed that the builder does not own exclusively (%s): an element is copied instead of moved, so it occurs twice in the tree and is evaluated twice' % fmt(v)[:160], span=sp)
+        vals = [v for v, _ in placed]
+        for tkn in taken:
+            c = sum(1 for v in vals if v == tkn)
+            # the collapse sub-branch hands `root` to collapse_root_stack_to, which returns the node to place
+            handed = any(nm == 'collapse_root_stack_to' and tkn in a for nm, a, sp in calls_of(eff))
+            droppable = tkn == SYM('node') and c == 0  # the fresh separator node has no children: extending an open sequence drops it
+            if c != 1 and not (handed and c == 0) and not droppable:
+                bad = True
+                ctx.violation('S5.5', 'sub-branch:' + label, 'lost-or-duplicated', 'node %s is placed %d times on a path through the separator branch (must be exactly once)' % (fmt(tkn)[:100], c), span=f.span)
+    if not bad:
+        ctx.ok('S5.5', 'element-conservation', 'on all %d paths every placed node is owned (moved) and every removed node is placed exactly once' % n, span=f.span)
+    ctx.floor('S5.5', 'separator_paths', n, 4)
+    # the non-separator path through an open sequence: the popped last element is pushed back exactly once
+    g = f
+    start2 = None
+    for b, t in g.calls():
+        if t['callee']['name'] == 'is_sequence' and t['callee'].get('local'):
+            from mirlib import def_roots, op_place, resolve_place, call_result_bool_edges
+            a = op_place(t['args'][0])
+            for r in def_roots(g, resolve_place(g, a)['l']):
+                if r[1] == 'term' and r[2]['callee']['name'] == 'operator':
+                    recv = resolve_place(g, op_place(r[2]['args'][0]))
+                    if g.local_name(recv['l']) == 'root':
+                        e = call_result_bool_edges(g, b)
+                        if e:
+                            start2 = e
+    if start2 is None:
+        ctx.unrecognised('S5.5', 'open-sequence-branch', 'shape', '`root.operator().is_sequence()` branch not found', span=g.span)
+        return
+    it = Interp(prog, hook=opaque_hook(stop_at=('is_rightsided_value',), extra=lambda it_, fn, t, args: (Fork([OK(('tuple', ())), ERR(SYM('insert_error'))]) if t['callee']['name'] == 'insert_back_prioritized' else None)), max_steps=200000)
+    out = []
+    it._run(g, start2[2], seed(g, {'node', 'root', 'root_stack'}), 0, out, (), {})
+    m = 0
+    for ret, eff in out:
+        if not (isinstance(ret, tuple) and ret and ret[0] == 'stop'):
+            continue
+        m += 1
+        cs = calls_of(eff)
+        pops = [a for nm, a, sp in cs if nm == 'pop']
+        pushes = [a for nm, a, sp in cs if nm == 'push' and len(a) == 2]
+        ins = [a for nm, a, sp in cs if nm == 'insert_back_prioritized']
+        good = len(pops) == 1 and pops[0][0] == ('proj', SYM('root'), ('children',)) and len(ins) == 1 and ins[0][1] == SYM('node')
+        good = good and len(pushes) == 2 and pushes[0][0] == ('proj', SYM('root'), ('children',)) and owned(pushes[0][1]) and pushes[0][1] == ins[0][0] and pushes[1] == (SYM('root_stack'), SYM('root'))
+        ctx.check(good, 'S5.5', 'open-sequence:insert-into-last-element', 'last-element', 'a non-separator token is inserted into the last element of the open sequence, which is popped and pushed back exactly once (pops %d, pushes %s)' % (len(pops), [fmt(a[1])[:60] for a in pushes]), span=g.span)
+    ctx.floor('S5.5', 'open_sequence_paths', m, 1)
 
 
 def sub_label(eff):
